@@ -19,6 +19,31 @@
 //!   decimal places);
 //! * ISO 8601: years..minutes identical and the same total of
 //!   seconds-and-smaller units; a `SignedDuration` comes back identical.
+//!
+//! Three layers per printed text (`c15/reader.rs`, `c15/shape.rs`):
+//! 1. the text is read by an *independent* reader written from the grammar in
+//!    the `jiff::fmt::friendly` module documentation (resp. the ISO 8601
+//!    duration grammar), which never calls jiff; what the text denotes (exact
+//!    `i128`, unit of account 10^-9 ns) is compared with the original value
+//!    under the same lossless / lossy rules (`.../text-denotes-another-value:*`,
+//!    `.../text-outside-the-documented-grammar`); for lossy configurations
+//!    the bound uses the number of fraction digits actually printed when that
+//!    is larger than the configured precision;
+//! 2. jiff's parser is compared with that reading of the same text
+//!    (`.../value-differs-from-the-text`), so a failure is pinned on the
+//!    printer or on the parser, and compensating errors cannot cancel;
+//! 3. the documented effect of every printer option on the shape of the text
+//!    (designator labels incl. singular/plural, spacing, sign placement,
+//!    fractional unit, comma, padding width, precision digit count, zero
+//!    unit, HH:MM:SS form, ISO designator case): the value round trip is
+//!    invariant under most options, so without this layer the option alphabet
+//!    would be enumerated vacuously (`friendly::SpanPrinter::<option>[..]/..`).
+//! The original print -> jiff parse -> compare signatures are unchanged.
+//!
+//! Other entry points are tied to the checked ones by identity: `print_span`
+//! / `print_duration` into `Vec<u8>` and `StdFmtWrite`, parsing from `&[u8]`,
+//! `FromStr` on every printed text (friendly and ISO), `Display` `{}` /
+//! `{:#}` and `Debug` against the default printers.
 
 use jiff::fmt::friendly::{self, Designator, Direction, FractionalUnit, Spacing};
 use jiff::fmt::temporal;
@@ -26,6 +51,13 @@ use jiff::{SignedDuration, Span, Unit};
 use rayon::prelude::*;
 use serde_json::json;
 use vf::{guard, panic_sig, Report};
+
+#[path = "c15/reader.rs"]
+mod reader;
+#[path = "c15/shape.rs"]
+mod shape;
+use reader::SCALE;
+use shape::{Facts, ShapeCfg, ShapeTally};
 
 // ---------------------------------------------------------------------------
 // model side
@@ -205,6 +237,20 @@ impl Cfg {
         }
     }
 
+    fn shape(&self) -> ShapeCfg {
+        ShapeCfg {
+            des: self.des,
+            sp: self.sp,
+            dir: self.dir,
+            eff_frac: self.eff_frac(),
+            comma: self.comma,
+            hms: self.hms,
+            pad: self.pad,
+            prec: self.prec,
+            zero: self.zero as usize,
+        }
+    }
+
     fn show(&self) -> String {
         format!(
             "cfg[des={} sp={} dir={} frac={} comma={} hms={} pad={} prec={} zero={}]",
@@ -221,7 +267,7 @@ impl Cfg {
     }
 }
 
-fn configs(pads: &[Option<u8>], zeros: &[u8]) -> Vec<Cfg> {
+fn configs(pads: &[Option<u8>], precs: &[Option<u8>], zeros: &[u8]) -> Vec<Cfg> {
     let mut v = vec![];
     for des in 0..4u8 {
         for sp in 0..3u8 {
@@ -230,7 +276,7 @@ fn configs(pads: &[Option<u8>], zeros: &[u8]) -> Vec<Cfg> {
                     for comma in [false, true] {
                         for hms in [false, true] {
                             for &pad in pads {
-                                for prec in [None, Some(0u8), Some(3), Some(9)] {
+                                for &prec in precs {
                                     for &zero in zeros {
                                         v.push(Cfg { des, sp, dir, frac, comma, hms, pad, prec, zero });
                                     }
@@ -276,6 +322,46 @@ fn span_pool() -> Vec<Fields> {
             pos.push(f);
         }
     }
+    // every unit one below its limit
+    for i in 0..10 {
+        let mut f = z;
+        f[i] = LIMIT[i] - 1;
+        pos.push(f);
+    }
+    // every pair of units at (limit, limit), (1, limit), (limit, 1), (1, 1)
+    for i in 0..10 {
+        for j in (i + 1)..10 {
+            for (a, b) in [(LIMIT[i], LIMIT[j]), (1, LIMIT[j]), (LIMIT[i], 1), (1, 1), (2, 2)] {
+                let mut f = z;
+                f[i] = a;
+                f[j] = b;
+                pos.push(f);
+            }
+        }
+    }
+    // all units at one below the limit; all at the limit but one unit
+    {
+        let mut f = LIMIT;
+        for x in f.iter_mut() {
+            *x -= 1;
+        }
+        pos.push(f);
+        for i in 0..10 {
+            let mut f = LIMIT;
+            f[i] = 0;
+            pos.push(f);
+            let mut f = [1i64; 10];
+            f[i] = 0;
+            pos.push(f);
+            let mut f = [1i64; 10];
+            f[i] = 2;
+            pos.push(f);
+        }
+    }
+    // calendar units only (HH:MM:SS mode prints 00:00:00 after them)
+    pos.push([1, 1, 1, 1, 0, 0, 0, 0, 0, 0]);
+    pos.push([2, 2, 2, 2, 0, 0, 0, 0, 0, 0]);
+    pos.push([0, 0, 1, 1, 0, 0, 0, 0, 0, 0]);
     // all-unit and fixed mixes
     pos.push([1; 10]);
     pos.push([2; 10]);
@@ -340,6 +426,26 @@ fn span_pool() -> Vec<Fields> {
         [0, 0, 0, i64::MAX - 1],
         [9_223_372_036, 854, 775, 807],
         [9_223_372_036, 854, 775, 808],
+        // unbalanced: the sub-second units overflow into seconds when folded
+        [0, 5000, 0, 999_999_999],
+        [0, 5000, 0, 1_000_000_000],
+        [0, 1999, 1999, 1999],
+        [1, 1999, 1_999_999, 1_999_999_999],
+        [0, 999, 999_999, 999_999_999],
+        [0, 0, 999_999, 999_999_999],
+        [0, 0, 5_000_000, 999_999_999],
+        [59, 1000, 0, 0],
+        [59, 999, 999, 999],
+        [60, 0, 0, 1],
+        [3599, 999, 999, 1000],
+        [0, 3_599_999, 999, 1000],
+        [0, 2, 2, 2],
+        [2, 2, 2, 2],
+        [0, 0, 1, 1],
+        [0, 1, 1, 0],
+        [0, 0, 1, 500],
+        [0, 1, 500, 0],
+        [1, 0, 0, 500_000_000],
     ];
     for q in sub {
         let mut f = z;
@@ -403,6 +509,26 @@ fn dur_pool() -> Vec<SignedDuration> {
         (i64::MAX - 1, 999_999_999),
         (i64::MAX, 0),
         (i64::MAX, 1),
+        // every unit one / two (singular and plural labels)
+        (3661, 1_001_001),
+        (7322, 2_002_002),
+        (3600, 1_000_000),
+        (3600, 1),
+        (60, 1_000),
+        (7200, 0),
+        (120, 0),
+        (2, 0),
+        (0, 2_000_000),
+        (0, 2_000),
+        (0, 2),
+        (1, 500_000_000),
+        (0, 1_500_000),
+        (0, 1_500),
+        (5400, 0),
+        (90, 0),
+        (3599, 999_999_999),
+        (59, 999_999_999),
+        (i64::MAX / 3600 * 3600 - 1, 999_999_999),
     ] {
         v.push((s, n));
         v.push((-s, -n));
@@ -414,6 +540,11 @@ fn dur_pool() -> Vec<SignedDuration> {
     out.push(SignedDuration::new(i64::MIN, -1));
     out.push(SignedDuration::new(i64::MIN + 1, -999_999_999));
     out.push(SignedDuration::new(i64::MIN + 1, 0));
+    out.push(SignedDuration::new(i64::MIN / 3600 * 3600, 0));
+    out.push(SignedDuration::new(i64::MIN / 3600 * 3600, -999_999_999));
+    out.push(SignedDuration::new(i64::MIN / 3600 * 3600 + 1, 0));
+    let mut seen = std::collections::BTreeSet::new();
+    out.retain(|d| seen.insert((d.as_secs(), d.subsec_nanos())));
     out
 }
 
@@ -436,6 +567,11 @@ struct Tally {
     with_comma: u64,
     panics: u64,
     rejected: u64,
+    read: u64,
+    read_lossless: u64,
+    read_lossy: u64,
+    parser_vs_reader: u64,
+    shape: ShapeTally,
 }
 
 impl Tally {
@@ -453,6 +589,11 @@ impl Tally {
         self.with_comma += o.with_comma;
         self.panics += o.panics;
         self.rejected += o.rejected;
+        self.read += o.read;
+        self.read_lossless += o.read_lossless;
+        self.read_lossy += o.read_lossy;
+        self.parser_vs_reader += o.parser_vs_reader;
+        self.shape = self.shape.add(o.shape);
         self
     }
     fn text(&mut self, t: &str) {
@@ -482,6 +623,15 @@ impl Tally {
             ("text_with_comma", self.with_comma),
             ("print_panics", self.panics),
             ("parser_rejections", self.rejected),
+            ("text_read_independently", self.read),
+            ("reader_lossless_compared", self.read_lossless),
+            ("reader_lossy_compared", self.read_lossy),
+            ("parser_compared_with_reader", self.parser_vs_reader),
+            ("shape_checked", self.shape.checked),
+            ("shape_singular_labels", self.shape.singular_seen),
+            ("shape_plural_labels", self.shape.plural_seen),
+            ("shape_abstained_suffix_hms_without_calendar", self.shape.abstained_suffix_hms_without_calendar),
+            ("shape_abstained_padding_above_19", self.shape.abstained_padding_above_19),
         ] {
             r.outcome(&format!("{}.{}", prefix, k), v);
         }
@@ -531,6 +681,7 @@ fn check_friendly_span(r: &Report, sec: &str, f: &Fields, span: &Span, cfg: &Cfg
         }
     };
     t.text(&text);
+    let rd = read_span_text(r, sec, "friendly::SpanPrinter::span_to_string", f, cfg, &text, &case, t);
     let parsed = match guard(|| friendly::SpanParser::new().parse_span(&text)) {
         Ok(x) => x,
         Err(pm) => {
@@ -554,7 +705,84 @@ fn check_friendly_span(r: &Report, sec: &str, f: &Fields, span: &Span, cfg: &Cfg
         }
     };
     let g = fields(&parsed);
+    if let Some(fr) = &rd {
+        parser_vs_reader_span(r, sec, "friendly::SpanParser::parse_span", fr, &g, &text, &case, t);
+    }
     compare_span(r, sec, "friendly", f, &g, cfg, &text, &case, t);
+}
+
+/// Read the printed text independently of jiff and compare what it denotes
+/// with the original span, per the property: lossless configurations unit for
+/// unit (with a fractional unit: the units above it unit for unit, the rest
+/// as one exact total), lossy ones within one unit of the last digit. Then
+/// the documented shape of every option.
+fn read_span_text<'a>(r: &Report, sec: &str, op: &str, f: &Fields, cfg: &Cfg, text: &'a str, case: &dyn Fn() -> String, t: &mut Tally) -> Option<reader::Friendly<'a>> {
+    let fr = match reader::read_friendly(text) {
+        Ok(x) => x,
+        Err(e) => {
+            r.viol(sec, &format!("{}/text-outside-the-documented-grammar", op), case(), format!("printed {:?}; independent reader: {}", text, e));
+            return None;
+        }
+    };
+    t.read += 1;
+    let bad = |class: &str, detail: String| {
+        r.viol(sec, &format!("{}/text-denotes-another-value:{}", op, class), case(), format!("printed {:?} original {}: {}", text, show_fields(f), detail));
+    };
+    let all = fr.signed_fields_below(10);
+    let same_upto = |k: usize| (0..k).all(|i| all[i] == f[i] as i128);
+    match cfg.eff_frac() {
+        k if !cfg.lossy() => {
+            t.read_lossless += 1;
+            let k = k.unwrap_or(10);
+            if !same_upto(k) {
+                bad(if k == 10 { "units" } else { "units-above-the-fractional-unit" }, format!("text reads {:?}", &all[..k]));
+            } else {
+                let from = if k == 10 { 4 } else { k };
+                match fr.time_scaled_from(from) {
+                    Some(x) if x == fold(f, from) * SCALE => {}
+                    x => bad("folded-total", format!("text total {:?} want {} (10^-9 ns, units from index {})", x, fold(f, from) * SCALE, from)),
+                }
+            }
+        }
+        k => {
+            t.read_lossy += 1;
+            let k = k.unwrap();
+            if !same_upto(4) {
+                bad("calendar-units", format!("text reads {:?}", &all[..4]));
+            } else {
+                let printed = fr.fraction_digits().map_or(0, |(_, d)| d as u32);
+                let digits = cfg.digits().max(printed);
+                let ok = fr.time_scaled_from(4).map_or(false, |x| (x - fold(f, 4) * SCALE).abs().checked_mul(10i128.pow(digits)).map_or(false, |y| y < SIZE[k] * SCALE));
+                if !ok {
+                    bad("error-not-below-one-unit-of-last-digit", format!("text total {:?} original {} (10^-9 ns), unit {} ns / 10^{}", fr.time_scaled_from(4), fold(f, 4) * SCALE, SIZE[k], digits));
+                }
+            }
+        }
+    }
+    let fa = Facts { negative: f.iter().any(|&x| x < 0), zero: f.iter().all(|&x| x == 0), has_cal: f[..4].iter().any(|&x| x != 0) };
+    shape::check(&fr, &cfg.shape(), &fa, &mut t.shape, &mut |what, detail| {
+        let (opt, class) = what.split_once('/').unwrap();
+        r.viol(sec, &format!("friendly::SpanPrinter::{}[print_span]/{}", opt, class), case(), format!("printed {:?} {}", text, detail));
+    });
+    Some(fr)
+}
+
+/// jiff's parser against the independent reading of the same text: units
+/// above a fraction equal one by one, the rest as one exact total.
+fn parser_vs_reader_span(r: &Report, sec: &str, op: &str, fr: &reader::Friendly<'_>, g: &Fields, text: &str, case: &dyn Fn() -> String, t: &mut Tally) {
+    t.parser_vs_reader += 1;
+    let all = fr.signed_fields_below(10);
+    // a time unit written above the limit of a `Span` cannot be kept as it
+    // is: the parser documents that it then balances into smaller units
+    // ("we need to be prepared to parse an unbalanced span"), so from that
+    // unit on only the total is compared
+    let over = (4..10).find(|&i| all[i].abs() > LIMIT[i] as i128).unwrap_or(10);
+    let k = fr.fraction_digits().map_or(10, |(u, _)| u).min(over);
+    let from = if k == 10 { 4 } else { k };
+    let same = (0..k).all(|i| all[i] == g[i] as i128) && fr.time_scaled_from(from) == Some(fold(g, from) * SCALE);
+    if !same {
+        r.viol(sec, &format!("{}/value-differs-from-the-text", op), case(), format!("text {:?} reads {:?} total {:?}; parser gave {}", text, &all[..k], fr.time_scaled_from(from), show_fields(g)));
+    }
 }
 
 fn compare_span(r: &Report, sec: &str, what: &str, f: &Fields, g: &Fields, cfg: &Cfg, text: &str, case: &dyn Fn() -> String, t: &mut Tally) {
@@ -616,6 +844,7 @@ fn check_friendly_dur(r: &Report, sec: &str, d: &SignedDuration, cfg: &Cfg, p: &
         }
     };
     t.text(&text);
+    let rd = read_dur_text(r, sec, "friendly::SpanPrinter::duration_to_string", d, cfg, &text, &case, t);
     let parsed = match guard(|| friendly::SpanParser::new().parse_duration(&text)) {
         Ok(x) => x,
         Err(pm) => {
@@ -642,7 +871,60 @@ fn check_friendly_dur(r: &Report, sec: &str, d: &SignedDuration, cfg: &Cfg, p: &
             return;
         }
     };
+    if let Some(fr) = &rd {
+        parser_vs_reader_dur(r, sec, "friendly::SpanParser::parse_duration", fr, &parsed, &text, &case, t);
+    }
     compare_dur(r, sec, "friendly", d, &parsed, cfg, &text, &case, t);
+}
+
+/// Like `read_span_text` for a `SignedDuration`: the text must denote the
+/// identical duration (lossless) or one within a unit of the last digit, and
+/// no calendar unit.
+fn read_dur_text<'a>(r: &Report, sec: &str, op: &str, d: &SignedDuration, cfg: &Cfg, text: &'a str, case: &dyn Fn() -> String, t: &mut Tally) -> Option<reader::Friendly<'a>> {
+    let fr = match reader::read_friendly(text) {
+        Ok(x) => x,
+        Err(e) => {
+            r.viol(sec, &format!("{}/text-outside-the-documented-grammar", op), case(), format!("printed {:?}; independent reader: {}", text, e));
+            return None;
+        }
+    };
+    t.read += 1;
+    let bad = |class: &str, detail: String| {
+        r.viol(sec, &format!("{}/text-denotes-another-value:{}", op, class), case(), format!("printed {:?} original {}: {}", text, show_dur(d), detail));
+    };
+    let want = d.as_secs() as i128 * 1_000_000_000 * SCALE + d.subsec_nanos() as i128 * SCALE;
+    let cal = fr.signed_fields_below(4);
+    if cal[..4].iter().any(|&x| x != 0) {
+        bad("calendar-units", format!("text reads {:?}", &cal[..4]));
+    } else if !cfg.lossy() {
+        t.read_lossless += 1;
+        if fr.time_scaled_from(4) != Some(want) {
+            bad("total", format!("text total {:?} want {} (10^-9 ns)", fr.time_scaled_from(4), want));
+        }
+    } else {
+        t.read_lossy += 1;
+        let k = cfg.eff_frac().unwrap();
+        let printed = fr.fraction_digits().map_or(0, |(_, d)| d as u32);
+        let digits = cfg.digits().max(printed);
+        let ok = fr.time_scaled_from(4).map_or(false, |x| (x - want).abs().checked_mul(10i128.pow(digits)).map_or(false, |y| y < SIZE[k] * SCALE));
+        if !ok {
+            bad("error-not-below-one-unit-of-last-digit", format!("text total {:?} original {} (10^-9 ns), unit {} ns / 10^{}", fr.time_scaled_from(4), want, SIZE[k], digits));
+        }
+    }
+    let fa = Facts { negative: d.is_negative(), zero: d.is_zero(), has_cal: false };
+    shape::check(&fr, &cfg.shape(), &fa, &mut t.shape, &mut |what, detail| {
+        let (opt, class) = what.split_once('/').unwrap();
+        r.viol(sec, &format!("friendly::SpanPrinter::{}[print_duration]/{}", opt, class), case(), format!("printed {:?} {}", text, detail));
+    });
+    Some(fr)
+}
+
+fn parser_vs_reader_dur(r: &Report, sec: &str, op: &str, fr: &reader::Friendly<'_>, g: &SignedDuration, text: &str, case: &dyn Fn() -> String, t: &mut Tally) {
+    t.parser_vs_reader += 1;
+    let got = g.as_secs() as i128 * 1_000_000_000 * SCALE + g.subsec_nanos() as i128 * SCALE;
+    if fr.time_scaled_from(4) != Some(got) {
+        r.viol(sec, &format!("{}/value-differs-from-the-text", op), case(), format!("text {:?} total {:?}; parser gave {} = {}", text, fr.time_scaled_from(4), show_dur(g), got));
+    }
 }
 
 fn compare_dur(r: &Report, sec: &str, what: &str, d: &SignedDuration, g: &SignedDuration, cfg: &Cfg, text: &str, case: &dyn Fn() -> String, t: &mut Tally) {
@@ -671,6 +953,165 @@ fn compare_dur(r: &Report, sec: &str, what: &str, d: &SignedDuration, g: &Signed
     }
 }
 
+fn entry_points_span(r: &Report, sec: &str, f: &Fields, s: &Span, cfg: &Cfg, p: &friendly::SpanPrinter) {
+    let case = || format!("{} {}", show_fields(f), cfg.show());
+    let res = guard(|| {
+        let text = p.span_to_string(s);
+        let mut v: Vec<u8> = vec![];
+        p.print_span(s, &mut v).unwrap();
+        let mut w = String::new();
+        p.print_span(s, jiff::fmt::StdFmtWrite(&mut w)).unwrap();
+        let a = friendly::SpanParser::new().parse_span(&text).map(|x| fields(&x)).map_err(|e| e.to_string());
+        let b = friendly::SpanParser::new().parse_span(text.as_bytes()).map(|x| fields(&x)).map_err(|e| e.to_string());
+        let c = text.parse::<Span>().map(|x| fields(&x)).map_err(|e| e.to_string());
+        (text, v, w, a, b, c)
+    });
+    match res {
+        Err(pm) => r.viol(sec, &format!("friendly::SpanPrinter::print_span/{}", panic_sig(&pm)), case(), pm),
+        Ok((text, v, w, a, b, c)) => {
+            if v != text.as_bytes() || w != text {
+                r.viol(sec, "friendly::SpanPrinter::print_span/differs-from-span_to_string", case(), format!("span_to_string {:?} Vec<u8> {:?} StdFmtWrite {:?}", text, String::from_utf8_lossy(&v), w));
+            }
+            if a != b {
+                r.viol(sec, "friendly::SpanParser::parse_span(&[u8])/differs-from-parse_span(&str)", case(), format!("text {:?}: {:?} vs {:?}", text, b, a));
+            }
+            if a.is_ok() != c.is_ok() || (a.is_ok() && a != c) {
+                r.viol(sec, "Span::from_str/differs-from-friendly::SpanParser::parse_span", case(), format!("text {:?}: {:?} vs {:?}", text, c, a));
+            }
+        }
+    }
+}
+
+fn entry_points_dur(r: &Report, sec: &str, d: &SignedDuration, cfg: &Cfg, p: &friendly::SpanPrinter) {
+    let case = || format!("{} {}", show_dur(d), cfg.show());
+    let res = guard(|| {
+        let text = p.duration_to_string(d);
+        let mut v: Vec<u8> = vec![];
+        p.print_duration(d, &mut v).unwrap();
+        let mut w = String::new();
+        p.print_duration(d, jiff::fmt::StdFmtWrite(&mut w)).unwrap();
+        let a = friendly::SpanParser::new().parse_duration(&text).map_err(|e| e.to_string());
+        let b = friendly::SpanParser::new().parse_duration(text.as_bytes()).map_err(|e| e.to_string());
+        let c = text.parse::<SignedDuration>().map_err(|e| e.to_string());
+        (text, v, w, a, b, c)
+    });
+    match res {
+        Err(pm) => r.viol(sec, &format!("friendly::SpanPrinter::print_duration/{}", panic_sig(&pm)), case(), pm),
+        Ok((text, v, w, a, b, c)) => {
+            if v != text.as_bytes() || w != text {
+                r.viol(sec, "friendly::SpanPrinter::print_duration/differs-from-duration_to_string", case(), format!("duration_to_string {:?} Vec<u8> {:?} StdFmtWrite {:?}", text, String::from_utf8_lossy(&v), w));
+            }
+            if a != b {
+                r.viol(sec, "friendly::SpanParser::parse_duration(&[u8])/differs-from-parse_duration(&str)", case(), format!("text {:?}: {:?} vs {:?}", text, b, a));
+            }
+            if a.is_ok() != c.is_ok() || (a.is_ok() && a != c) {
+                r.viol(sec, "SignedDuration::from_str/differs-from-friendly::SpanParser::parse_duration", case(), format!("text {:?}: {:?} vs {:?}", text, c, a));
+            }
+        }
+    }
+}
+
+/// ISO text read independently: years..minutes unit for unit, seconds and
+/// smaller as one exact total; the designator case follows `lowercase`.
+fn read_iso_span_text(r: &Report, sec: &str, op: &str, lower: bool, f: &Fields, text: &str, case: &dyn Fn() -> String, t: &mut Tally) -> Option<reader::Iso> {
+    let io = match reader::read_iso(text) {
+        Ok(x) => x,
+        Err(e) => {
+            r.viol(sec, &format!("{}/text-outside-the-ISO-8601-duration-grammar", op), case(), format!("printed {:?}; independent reader: {}", text, e));
+            return None;
+        }
+    };
+    t.read += 1;
+    t.read_lossless += 1;
+    let all = io.signed_fields_below(6);
+    if (0..6).any(|i| all[i] != f[i] as i128) {
+        r.viol(sec, &format!("{}/text-denotes-another-value:units-above-seconds", op), case(), format!("printed {:?} reads {:?} original {}", text, &all[..6], show_fields(f)));
+    } else if io.time_scaled_from(6) != Some(fold(f, 6) * SCALE) {
+        r.viol(sec, &format!("{}/text-denotes-another-value:folded-total", op), case(), format!("printed {:?} total {:?} want {}", text, io.time_scaled_from(6), fold(f, 6) * SCALE));
+    }
+    iso_case(r, sec, lower, &io, text, case);
+    Some(io)
+}
+
+fn read_iso_dur_text(r: &Report, sec: &str, op: &str, lower: bool, d: &SignedDuration, text: &str, case: &dyn Fn() -> String, t: &mut Tally) -> Option<reader::Iso> {
+    let io = match reader::read_iso(text) {
+        Ok(x) => x,
+        Err(e) => {
+            r.viol(sec, &format!("{}/text-outside-the-ISO-8601-duration-grammar", op), case(), format!("printed {:?}; independent reader: {}", text, e));
+            return None;
+        }
+    };
+    t.read += 1;
+    t.read_lossless += 1;
+    let want = d.as_secs() as i128 * 1_000_000_000 * SCALE + d.subsec_nanos() as i128 * SCALE;
+    let cal = io.signed_fields_below(4);
+    if cal[..4].iter().any(|&x| x != 0) {
+        r.viol(sec, &format!("{}/text-denotes-another-value:calendar-units", op), case(), format!("printed {:?}", text));
+    } else if io.time_scaled_from(4) != Some(want) {
+        r.viol(sec, &format!("{}/text-denotes-another-value:total", op), case(), format!("printed {:?} total {:?} want {}", text, io.time_scaled_from(4), want));
+    }
+    iso_case(r, sec, lower, &io, text, case);
+    Some(io)
+}
+
+/// "Use lowercase for unit designator labels. By default, unit designator
+/// labels are written in uppercase."
+fn iso_case(r: &Report, sec: &str, lower: bool, io: &reader::Iso, text: &str, case: &dyn Fn() -> String) {
+    if io.toks[..io.n].iter().any(|x| x.label.is_ascii_lowercase() != lower) {
+        r.viol(sec, "temporal::SpanPrinter::lowercase/designator-case", case(), format!("printed {:?} with lowercase={}", text, lower));
+    }
+}
+
+/// `print_span` into a `Vec<u8>` gives the same bytes; `FromStr` and parsing
+/// from `&[u8]` give the same value as `temporal::SpanParser::parse_span`.
+fn iso_other_entry_points_span(r: &Report, sec: &str, p: &temporal::SpanPrinter, s: &Span, text: &str, g: &Fields, case: &dyn Fn() -> String) {
+    let res = guard(|| {
+        let mut v: Vec<u8> = vec![];
+        p.print_span(s, &mut v).unwrap();
+        let b = temporal::SpanParser::new().parse_span(text.as_bytes()).map(|x| fields(&x)).map_err(|e| e.to_string());
+        let c = text.parse::<Span>().map(|x| fields(&x)).map_err(|e| e.to_string());
+        (v, b, c)
+    });
+    match res {
+        Err(pm) => r.viol(sec, &format!("temporal::SpanPrinter::print_span/{}", panic_sig(&pm)), case(), pm),
+        Ok((v, b, c)) => {
+            if v != text.as_bytes() {
+                r.viol(sec, "temporal::SpanPrinter::print_span/differs-from-span_to_string", case(), format!("{:?} vs {:?}", String::from_utf8_lossy(&v), text));
+            }
+            if b.as_ref() != Ok(g) {
+                r.viol(sec, "temporal::SpanParser::parse_span(&[u8])/differs-from-parse_span(&str)", case(), format!("text {:?}: {:?}", text, b));
+            }
+            if c.as_ref() != Ok(g) {
+                r.viol(sec, "Span::from_str/differs-from-temporal::SpanParser::parse_span", case(), format!("text {:?}: {:?}", text, c));
+            }
+        }
+    }
+}
+
+fn iso_other_entry_points_dur(r: &Report, sec: &str, p: &temporal::SpanPrinter, d: &SignedDuration, text: &str, g: &SignedDuration, case: &dyn Fn() -> String) {
+    let res = guard(|| {
+        let mut v: Vec<u8> = vec![];
+        p.print_duration(d, &mut v).unwrap();
+        let b = temporal::SpanParser::new().parse_duration(text.as_bytes()).map_err(|e| e.to_string());
+        let c = text.parse::<SignedDuration>().map_err(|e| e.to_string());
+        (v, b, c)
+    });
+    match res {
+        Err(pm) => r.viol(sec, &format!("temporal::SpanPrinter::print_duration/{}", panic_sig(&pm)), case(), pm),
+        Ok((v, b, c)) => {
+            if v != text.as_bytes() {
+                r.viol(sec, "temporal::SpanPrinter::print_duration/differs-from-duration_to_string", case(), format!("{:?} vs {:?}", String::from_utf8_lossy(&v), text));
+            }
+            if b.as_ref() != Ok(g) {
+                r.viol(sec, "temporal::SpanParser::parse_duration(&[u8])/differs-from-parse_duration(&str)", case(), format!("text {:?}: {:?}", text, b));
+            }
+            if c.as_ref() != Ok(g) {
+                r.viol(sec, "SignedDuration::from_str/differs-from-temporal::SpanParser::parse_duration", case(), format!("text {:?}: {:?}", text, c));
+            }
+        }
+    }
+}
+
 /// The ISO 8601 format behaves like "fractional seconds, lossless".
 const ISO_CFG: Cfg = Cfg { des: 2, sp: 1, dir: 0, frac: Some(6), comma: false, hms: false, pad: None, prec: None, zero: 6 };
 /// The default friendly printer (`{:#}`).
@@ -690,17 +1131,47 @@ fn main() {
     r.count("span_pool", spans.len() as u64);
     r.count("duration_pool", durs.len() as u64);
 
-    let (pads, zeros): (Vec<Option<u8>>, Vec<u8>) = if r.quick() {
-        (vec![Some(0), Some(2)], vec![6, 4, 0])
+    // padding: 0, the HH:MM:SS default 2, the 19-digit cap of the integer
+    // formatter and values beyond it; precision: every digit count in the
+    // thorough tier, both ends, a middle value and a clamped one (> 9) in the
+    // quick tier.
+    let (pads, precs): (Vec<Option<u8>>, Vec<Option<u8>>) = if r.quick() {
+        (vec![Some(0), Some(2), Some(19), Some(255)], vec![None, Some(0), Some(1), Some(3), Some(9), Some(10)])
     } else {
-        (vec![Some(0), Some(2), Some(5)], (0..10u8).collect())
+        (
+            vec![Some(0), Some(1), Some(2), Some(5), Some(19), Some(20), Some(255)],
+            vec![None, Some(0), Some(1), Some(2), Some(3), Some(4), Some(5), Some(6), Some(7), Some(8), Some(9), Some(10), Some(255)],
+        )
     };
-    let cfgs = configs(&pads, &zeros);
+    // the zero unit only matters for a zero value: three zero units go with
+    // the full padding x precision lists; the thorough tier adds all ten zero
+    // units over the original padding x precision lists (the product declared
+    // in DESIGN.md), and `friendly_zero_unit` below runs all ten against every
+    // other option on the values around zero in both tiers
+    let mut cfgs = configs(&pads, &precs, &[6, 4, 0]);
+    if r.thorough() {
+        let (p0, q0) = ([Some(0u8), Some(2), Some(5)], [None, Some(0u8), Some(3), Some(9)]);
+        cfgs.extend(configs(&p0, &q0, &(0..10u8).collect::<Vec<_>>()).into_iter().filter(|c| ![6, 4, 0].contains(&c.zero)));
+    }
     r.count("friendly_configurations", cfgs.len() as u64);
     // padding left unset (its documented default differs between the two
     // formats), zero unit at its default
-    let dcfgs = configs(&[None], &[6]);
+    let dcfgs = configs(&[None], &precs, &[6]);
     r.count("friendly_configurations_default_padding", dcfgs.len() as u64);
+    // every zero unit x every other option on the values around zero
+    let zcfgs = configs(&[None, Some(0), Some(2), Some(19)], &[None, Some(0), Some(3), Some(9)], &(0..10u8).collect::<Vec<_>>());
+    r.count("friendly_configurations_zero_unit", zcfgs.len() as u64);
+    let zero_spans: Vec<(Fields, Span)> = spans
+        .iter()
+        .filter(|(f, _)| {
+            let nz: Vec<usize> = (0..10).filter(|&i| f[i] != 0).collect();
+            nz.is_empty() || (nz.len() == 1 && f[nz[0]].abs() == 1) || *f == [1; 10] || *f == [-1; 10]
+        })
+        .cloned()
+        .collect();
+    let zero_durs: Vec<SignedDuration> = durs.iter().filter(|d| d.as_secs().unsigned_abs() <= 1 && d.subsec_nanos().unsigned_abs() <= 1).cloned().collect();
+    r.count("zero_unit_span_pool", zero_spans.len() as u64);
+    r.count("zero_unit_duration_pool", zero_durs.len() as u64);
 
     r.section("friendly_span", || {
         let t = cfgs
@@ -719,6 +1190,9 @@ fn main() {
         r.require(t.lossless > 0 && t.lossy > 0 && t.lossy_changed > 0, "lossless and lossy configurations both exercised, truncation observed");
         r.require(t.rebalanced > 0, "folded sub-second totals re-balanced by the parser were observed");
         r.require(t.with_ago > 0 && t.with_plus > 0 && t.with_minus > 0 && t.with_colon > 0 && t.with_comma > 0 && t.with_fraction > 0, "every textual shape observed");
+        r.require(t.read + t.panics == t.cases && t.shape.checked == t.read, "every printed span text was read independently and its shape checked");
+        r.require(t.read_lossless > 0 && t.read_lossy > 0 && t.parser_vs_reader > 0, "reader: lossless, lossy and parser comparisons all exercised");
+        r.require(t.shape.all_paths_seen(), "spans: every designator style wrote labels next to 0, 1, many and a fraction; every direction decided for zero, positive and negative values with and without HH:MM:SS");
     });
 
     r.section("friendly_duration", || {
@@ -736,6 +1210,9 @@ fn main() {
         t.report(&r, "friendly_duration");
         r.require(t.cases == (cfgs.len() * durs.len()) as u64, "full duration x configuration product enumerated");
         r.require(t.lossless > 0 && t.lossy > 0 && t.lossy_changed > 0, "lossless and lossy configurations both exercised");
+        r.require(t.read + t.panics == t.cases && t.shape.checked == t.read, "every printed duration text was read independently and its shape checked");
+        r.require(t.read_lossless > 0 && t.read_lossy > 0 && t.parser_vs_reader > 0, "reader: lossless, lossy and parser comparisons all exercised");
+        r.require(t.shape.all_paths_seen(), "durations: every designator style wrote labels next to 0, 1, many and a fraction; every direction decided for zero, positive and negative values with and without HH:MM:SS");
     });
 
     r.section("friendly_default_padding", || {
@@ -756,6 +1233,53 @@ fn main() {
         t.report(&r, "friendly_default_padding");
     });
 
+    // every zero unit x every other option, on zero and the values next to it
+    r.section("friendly_zero_unit", || {
+        let t = zcfgs
+            .par_iter()
+            .map(|cfg| {
+                let p = cfg.printer();
+                let mut t = Tally::default();
+                for (f, s) in &zero_spans {
+                    check_friendly_span(&r, "friendly_zero_unit", f, s, cfg, &p, &mut t);
+                }
+                for d in &zero_durs {
+                    check_friendly_dur(&r, "friendly_zero_unit", d, cfg, &p, &mut t);
+                }
+                t
+            })
+            .reduce(Tally::default, Tally::add);
+        t.report(&r, "friendly_zero_unit");
+        r.require(zero_spans.len() >= 23 && zero_durs.len() >= 7, "zero, every single unit at +-1 and all-ones are in the zero-unit pool");
+        r.require(t.cases == (zcfgs.len() * (zero_spans.len() + zero_durs.len())) as u64, "full zero-unit product enumerated");
+    });
+
+    // the other entry points give the same bytes / the same value as the
+    // ones checked above: print_span / print_duration into a `Vec<u8>` and
+    // through `StdFmtWrite`; `FromStr` and parsing from `&[u8]`.
+    r.section("friendly_entry_points", || {
+        let n = dcfgs
+            .par_iter()
+            .map(|cfg| {
+                let p = cfg.printer();
+                let mut n = 0u64;
+                for (f, s) in &spans {
+                    n += 1;
+                    entry_points_span(&r, "friendly_entry_points", f, s, cfg, &p);
+                }
+                for d in &durs {
+                    n += 1;
+                    entry_points_dur(&r, "friendly_entry_points", d, cfg, &p);
+                }
+                n
+            })
+            .sum::<u64>();
+        r.outcome("friendly_entry_points.cases", n);
+        r.add_states(n);
+        r.add_transitions(n * 4);
+        r.add_validated(n * 4);
+    });
+
     r.section("iso", || {
         let mut t = Tally::default();
         for lower in [false, true] {
@@ -771,13 +1295,28 @@ fn main() {
                     }
                 };
                 t.text(&text);
+                let rd = read_iso_span_text(&r, "iso", "temporal::SpanPrinter::span_to_string", lower, f, &text, &case, &mut t);
                 match guard(|| temporal::SpanParser::new().parse_span(&text)) {
                     Err(pm) => r.viol("iso", &format!("temporal::SpanParser::parse_span/{}", panic_sig(&pm)), case(), format!("text {:?}: {}", text, pm)),
                     Ok(Err(e)) => {
                         t.rejected += 1;
                         r.viol("iso", "temporal::SpanParser::parse_span/rejects-printed-text", case(), format!("printed {:?}; parser: {}", text, e))
                     }
-                    Ok(Ok(g)) => compare_span(&r, "iso", "iso", f, &fields(&g), &ISO_CFG, &text, &case, &mut t),
+                    Ok(Ok(g)) => {
+                        let g = fields(&g);
+                        if let Some(io) = &rd {
+                            t.parser_vs_reader += 1;
+                            let all = io.signed_fields_below(10);
+                            let over = (4..10).find(|&i| all[i].abs() > LIMIT[i] as i128).unwrap_or(10);
+                            let k = io.toks[..io.n].iter().find(|x| x.frac_digits > 0).map_or(10, |x| x.unit).min(over);
+                            let from = if k == 10 { 4 } else { k };
+                            if !((0..k).all(|i| all[i] == g[i] as i128) && io.time_scaled_from(from) == Some(fold(&g, from) * SCALE)) {
+                                r.viol("iso", "temporal::SpanParser::parse_span/value-differs-from-the-text", case(), format!("text {:?} reads {:?}; parser gave {}", text, &all[..k], show_fields(&g)));
+                            }
+                        }
+                        compare_span(&r, "iso", "iso", f, &g, &ISO_CFG, &text, &case, &mut t);
+                        iso_other_entry_points_span(&r, "iso", &p, s, &text, &g, &case);
+                    }
                 }
             }
             for d in &durs {
@@ -791,27 +1330,49 @@ fn main() {
                     }
                 };
                 t.text(&text);
+                let rd = read_iso_dur_text(&r, "iso", "temporal::SpanPrinter::duration_to_string", lower, d, &text, &case, &mut t);
                 match guard(|| temporal::SpanParser::new().parse_duration(&text)) {
                     Err(pm) => r.viol("iso", &format!("temporal::SpanParser::parse_duration/{}", panic_sig(&pm)), case(), format!("text {:?}: {}", text, pm)),
                     Ok(Err(e)) => {
                         t.rejected += 1;
                         r.viol("iso", "temporal::SpanParser::parse_duration/rejects-printed-text", case(), format!("printed {:?}; parser: {}", text, e))
                     }
-                    Ok(Ok(g)) => compare_dur(&r, "iso", "iso", d, &g, &ISO_CFG, &text, &case, &mut t),
+                    Ok(Ok(g)) => {
+                        if let Some(io) = &rd {
+                            t.parser_vs_reader += 1;
+                            let got = g.as_secs() as i128 * 1_000_000_000 * SCALE + g.subsec_nanos() as i128 * SCALE;
+                            if io.time_scaled_from(4) != Some(got) {
+                                r.viol("iso", "temporal::SpanParser::parse_duration/value-differs-from-the-text", case(), format!("text {:?} total {:?}; parser gave {}", text, io.time_scaled_from(4), show_dur(&g)));
+                            }
+                        }
+                        compare_dur(&r, "iso", "iso", d, &g, &ISO_CFG, &text, &case, &mut t);
+                        iso_other_entry_points_dur(&r, "iso", &p, d, &text, &g, &case);
+                    }
                 }
             }
         }
         t.report(&r, "iso");
         r.require(t.rebalanced > 0 && t.with_fraction > 0, "ISO: combined fractional seconds observed");
+        r.require(t.read == t.cases && t.parser_vs_reader == t.cases, "ISO: every text read independently and compared with the parser");
     });
 
     r.section("display_fromstr", || {
         let mut t = Tally::default();
+        // mode 0: `{}` (ISO 8601), 1: `{:#}` (friendly), 2: `{:?}` (friendly,
+        // "Both Span and SignedDuration use the friendly format for its Debug")
+        let mode_name = |m: u8| if m == 2 { "Debug".to_string() } else { format!("Display[alternate={}]", m) };
+        let iso_p = temporal::SpanPrinter::new();
+        let fr_p = friendly::SpanPrinter::new();
         for (f, s) in &spans {
-            for alt in [false, true] {
+            for mode in 0..3u8 {
+                let alt = mode != 0;
                 t.cases += 1;
-                let case = || format!("{} Display[alternate={}]", show_fields(f), alt as u8);
-                let text = match guard(|| if alt { format!("{:#}", s) } else { format!("{}", s) }) {
+                let case = || format!("{} {}", show_fields(f), mode_name(mode));
+                let text = match guard(|| match mode {
+                    0 => format!("{}", s),
+                    1 => format!("{:#}", s),
+                    _ => format!("{:?}", s),
+                }) {
                     Ok(x) => x,
                     Err(pm) => {
                         r.viol("display_fromstr", &format!("Span::fmt/{}", panic_sig(&pm)), case(), pm);
@@ -819,8 +1380,24 @@ fn main() {
                     }
                 };
                 t.text(&text);
+                // "The default configuration of this printer is used for
+                // alternate display formatting"
+                if let Ok(want) = guard(|| if alt { fr_p.span_to_string(s) } else { iso_p.span_to_string(s) }) {
+                    if want != text {
+                        r.viol("display_fromstr", "Span::fmt/differs-from-the-default-printer", case(), format!("fmt {:?} printer {:?}", text, want));
+                    }
+                }
+                if alt {
+                    read_span_text(&r, "display_fromstr", "Span::fmt(friendly)", f, &DEFAULT_CFG, &text, &case, &mut t);
+                } else {
+                    read_iso_span_text(&r, "display_fromstr", "Span::fmt(ISO)", false, f, &text, &case, &mut t);
+                }
                 let cfg = if alt { &DEFAULT_CFG } else { &ISO_CFG };
-                let what = if alt { "Display#-FromStr" } else { "Display-FromStr" };
+                let what = match mode {
+                    0 => "Display-FromStr",
+                    1 => "Display#-FromStr",
+                    _ => "Debug-FromStr",
+                };
                 match guard(|| text.parse::<Span>()) {
                     Err(pm) => r.viol("display_fromstr", &format!("Span::from_str/{}", panic_sig(&pm)), case(), format!("text {:?}: {}", text, pm)),
                     Ok(Err(e)) => {
@@ -832,10 +1409,15 @@ fn main() {
             }
         }
         for d in &durs {
-            for alt in [false, true] {
+            for mode in 0..3u8 {
+                let alt = mode != 0;
                 t.cases += 1;
-                let case = || format!("{} Display[alternate={}]", show_dur(d), alt as u8);
-                let text = match guard(|| if alt { format!("{:#}", d) } else { format!("{}", d) }) {
+                let case = || format!("{} {}", show_dur(d), mode_name(mode));
+                let text = match guard(|| match mode {
+                    0 => format!("{}", d),
+                    1 => format!("{:#}", d),
+                    _ => format!("{:?}", d),
+                }) {
                     Ok(x) => x,
                     Err(pm) => {
                         r.viol("display_fromstr", &format!("SignedDuration::fmt/{}", panic_sig(&pm)), case(), pm);
@@ -843,8 +1425,22 @@ fn main() {
                     }
                 };
                 t.text(&text);
+                if let Ok(want) = guard(|| if alt { fr_p.duration_to_string(d) } else { iso_p.duration_to_string(d) }) {
+                    if want != text {
+                        r.viol("display_fromstr", "SignedDuration::fmt/differs-from-the-default-printer", case(), format!("fmt {:?} printer {:?}", text, want));
+                    }
+                }
+                if alt {
+                    read_dur_text(&r, "display_fromstr", "SignedDuration::fmt(friendly)", d, &DEFAULT_CFG, &text, &case, &mut t);
+                } else {
+                    read_iso_dur_text(&r, "display_fromstr", "SignedDuration::fmt(ISO)", false, d, &text, &case, &mut t);
+                }
                 let cfg = if alt { &DEFAULT_CFG } else { &ISO_CFG };
-                let what = if alt { "Display#-FromStr" } else { "Display-FromStr" };
+                let what = match mode {
+                    0 => "Display-FromStr",
+                    1 => "Display#-FromStr",
+                    _ => "Debug-FromStr",
+                };
                 match guard(|| text.parse::<SignedDuration>()) {
                     Err(pm) => r.viol("display_fromstr", &format!("SignedDuration::from_str/{}", panic_sig(&pm)), case(), format!("text {:?}: {}", text, pm)),
                     Ok(Err(e)) => {
@@ -861,6 +1457,7 @@ fn main() {
             }
         }
         t.report(&r, "display_fromstr");
+        r.require(t.read == t.cases, "every displayed text was read independently");
     });
 
     // a few written-out cases
